@@ -724,6 +724,52 @@ where
     })
 }
 
+/// `tally TAG` : read standard input to the end, report `@TAG <length> <hash> ok|read-error` on
+/// standard error (usable on the real system, where the event log of a child process is lost).
+fn tally_main<S>(
+    env: &mut Env<S>,
+    args: Vec<Field>,
+) -> Pin<Box<dyn Future<Output = yash_env::builtin::Result> + '_>>
+where
+    S: yash_env::system::concurrency::ReadAll + yash_env::system::concurrency::WriteAll,
+{
+    Box::pin(async move {
+        let tag = args.first().map(|f| f.value.clone()).unwrap_or_default();
+        let r = env.system.read_all(Fd::STDIN).await;
+        let line = match &r {
+            Ok(d) => format!("@{tag} {} {:016x} ok\n", d.len(), crate::util::fnv(d)),
+            Err(e) => format!("@{tag} 0 0 read-error:{e:?}\n"),
+        };
+        let _ = env.system.write_all(Fd::STDERR, line.as_bytes()).await;
+        yash_env::builtin::Result::new(if r.is_ok() { ExitStatus::SUCCESS } else { ExitStatus::FAILURE })
+    })
+}
+
+/// `nbfd TAG` : report `@TAG fd:b|n ...` on standard error - which of the descriptors 0-9 of this
+/// (real) process are open on a description in non-blocking mode.
+fn nbfd_main<S>(
+    env: &mut Env<S>,
+    args: Vec<Field>,
+) -> Pin<Box<dyn Future<Output = yash_env::builtin::Result> + '_>>
+where
+    S: yash_env::system::concurrency::WriteAll,
+{
+    Box::pin(async move {
+        let tag = args.first().map(|f| f.value.clone()).unwrap_or_default();
+        let mut v = Vec::new();
+        for fd in 0..10 {
+            // SAFETY: F_GETFL only queries the descriptor
+            let fl = unsafe { libc::fcntl(fd, libc::F_GETFL) };
+            if fl != -1 {
+                v.push(format!("{fd}:{}", if fl & libc::O_NONBLOCK != 0 { "n" } else { "b" }));
+            }
+        }
+        let line = format!("@{tag} {}\n", v.join(" "));
+        let _ = env.system.write_all(Fd::STDERR, line.as_bytes()).await;
+        yash_env::builtin::Result::new(ExitStatus::SUCCESS)
+    })
+}
+
 /// `relay` : copy standard input to standard output with `read`/`write` calls of odd sizes.
 fn relay_main<S>(
     env: &mut Env<S>,
@@ -1092,6 +1138,8 @@ where
         ("pos", Builtin::new(Type::Mandatory, pos_main::<S>)),
         ("off", Builtin::new(Type::Mandatory, off_main::<S>)),
         ("lsfd", Builtin::new(Type::Mandatory, lsfd_main::<S>)),
+        ("tally", Builtin::new(Type::Mandatory, tally_main::<S>)),
+        ("nbfd", Builtin::new(Type::Mandatory, nbfd_main::<S>)),
     ]
 }
 
